@@ -395,7 +395,7 @@ func (s *Sim) opExec() string {
 	chain, dst := l.Ends[side].Chain, l.Ends[1-side].Chain
 	ch := s.Ch[chain]
 	victim, actor := s.R.Intn(5), 5+s.R.Intn(5)
-	if s.R.Bool() {
+	if s.R.Intn(4) != 0 {
 		// prefer a pair with a live grant on this chain, if there is one
 		for _, k := range sortedKeys(s.grants) {
 			var c0, g0, e0 int
